@@ -288,3 +288,12 @@ package annotations
 //@   at call GetTLSSecretPath#1 assert reader-ns: $arg1 == (crt.Source != nil ? crt.Source.Namespace : "")
 //@   at call GetCASecretPath#1 assert reader-ns:  $arg1 == (ca.Source != nil ? ca.Source.Namespace : "")
 //@ end
+
+// C11 — the slot settings reach the model from their own keys
+//@ func (*updater).buildBackendDynamic
+//@   props C11
+//@   assume-pre Mapper).Get
+//@   at call Get#1 assert scaling:   $arg1 == ingtypes.BackDynamicScaling
+//@   at call Get#2 assert increment: $arg1 == ingtypes.BackBackendServerSlotsInc
+//@   at call Get#3 assert min-free:  $arg1 == ingtypes.BackSlotsMinFree
+//@ end
